@@ -69,19 +69,32 @@ def has_tmpl_op(text):
 
 
 def substitute(text, kinds, addr_as_bytes=False):
-    """Textual template substitution (what sourcemap.py / users do). kinds: name -> 'int'|'bytes'|'addr'."""
-    for name in sorted(kinds, key=lambda s: (-len(s), s)):
-        k = kinds[name]
-        h = int.from_bytes(G.sha512_256(name.encode())[:6], "big")
+    """Template instantiation at token level: a placeholder is replaced where it is the operand of a constant
+    pseudo-op / push op or an entry of a block line (never inside a string literal or a comment).
+    kinds: name -> 'int'|'bytes'|'addr' (how the program declares the placeholder)."""
+    import re
+
+    def value(name, ctx):
+        k = "int" if ctx == "int" else ("addr" if ctx == "addr" else kinds.get(name, "bytes"))
         if k == "int":
-            val = str(1000 + h)
-        elif k == "addr":
+            return str(1000 + int.from_bytes(G.sha512_256(name.encode())[:6], "big"))
+        if k == "addr":
             key = G.sha512_256(b"key" + name.encode())
-            val = ("0x" + key.hex()) if addr_as_bytes else G.make_address(key)
-        else:
-            val = "0x" + G.sha512_256(name.encode())[:5].hex()
-        text = text.replace(name, val)
-    return text
+            return ("0x" + key.hex()) if (addr_as_bytes and ctx != "addr") else G.make_address(key)
+        return "0x" + G.sha512_256(name.encode())[:5].hex()
+
+    out = []
+    for line in text.split("\n"):
+        m = re.match(r"^(int|pushint|byte|pushbytes|addr) (TMPL_[A-Z0-9_]+)( .*)?$", line)
+        if m and m.group(2) in kinds:
+            ctx = {"int": "int", "pushint": "int", "addr": "addr"}.get(m.group(1), "bytes")
+            line = "%s %s%s" % (m.group(1), value(m.group(2), ctx), m.group(3) or "")
+        elif line.startswith("intcblock ") or line.startswith("bytecblock "):
+            toks = line.split(" ")
+            ctx = "int" if toks[0] == "intcblock" else "bytes"
+            line = " ".join([toks[0]] + [value(t, ctx) if t in kinds else t for t in toks[1:]])
+        out.append(line)
+    return "\n".join(out)
 
 
 class Oracle:
@@ -127,7 +140,8 @@ def kinds_of_recipe(recipe):
             k = {"int": "int", "byte": "bytes", "addr": "addr"}.get(c[1])
             if k:
                 for name in tmpl_names(c[2]):
-                    kinds.setdefault(name, k)
+                    if k == "addr" or name not in kinds:
+                        kinds[name] = k          # an address use decides (the known addr-template class)
     return kinds
 
 
@@ -160,6 +174,19 @@ def gen_program(rng, pt, version, size, with_tmpl, with_sub, many=0):
         key = bytes(rng.randrange(256) for _ in range(32))
         addrs.append(G.make_address(key))
         byts.append(key)
+    # same source text under different constructors: Bytes(sig) vs MethodSignature(sig), Bytes(addr) vs Addr(addr),
+    # Bytes("TMPL_BYTES_0") vs Tmpl.Bytes, Bytes("5") vs Int(5), Bytes of a base64 text vs Bytes("base64", text)
+    if rng.random() < 0.6:
+        byts.append(rng.choice(msigs).encode())
+    if rng.random() < 0.3:
+        byts.append(rng.choice(addrs).encode())
+    if with_tmpl and rng.random() < 0.5:
+        byts.append(rng.choice([b"TMPL_BYTES_0", b"TMPL_ADDR_0", b"TMPL_INT_0"]))
+    if rng.random() < 0.3:
+        byts.append(str(rng.choice(ints)).encode())
+    if rng.random() < 0.3:
+        import base64 as _b
+        byts.append(_b.b64encode(rng.choice(byts)).decode().encode())
 
     def c_int():
         r = rng.random()
@@ -191,7 +218,7 @@ def gen_program(rng, pt, version, size, with_tmpl, with_sub, many=0):
             sigs[s] = G.sha512_256(s.encode())[:4]
             return pt.MethodSignature(s)
         b = rng.choice(byts)
-        form = rng.choice(["str", "raw", "b16", "b16x", "b32", "b32pad", "b64"])
+        form = rng.choice(["str", "str", "str", "raw", "b16", "b16x", "b32", "b32pad", "b64"])
         if form == "str" and G.is_utf8(b):
             return pt.Bytes(b.decode("utf-8"))
         if form == "raw":
@@ -339,6 +366,7 @@ def main(argv):
 
     text_mismatch = []      # model != real (correspondence)
     sem_fail = []           # property violated on the real output
+    crash_fail = []         # implementation crashes (non-PyTeal exception) where the model has an output
     known_hits = {}
     hist = {"raises": 0, "ok": 0, "a_invalid": 0, "sites_same": 0, "tmpl_addr": 0, "index_gt_255": 0, "exc_classes": {}}
 
@@ -380,6 +408,10 @@ def main(argv):
             hist["exc_classes"][r[1]] = hist["exc_classes"].get(r[1], 0) + 1
             if m != [S("raises")]:
                 text_mismatch.append({"kind": "ccb", "recipe": recipe, "real": list(r), "model": repr(m)[:2000]})
+                if r[1] not in PYTEAL_ERRORS and m and m[0] == S("ok"):
+                    # the faithful model produces an output, the implementation dies with a non-PyTeal exception:
+                    # a concrete failing input (crash instead of TEAL)
+                    crash_fail.append({"kind": "crash", "recipe": recipe, "exception": list(r[1:]), "model_output": m[1:][:40]})
             return
         hist["ok"] += 1
         real_lines = r[1]
@@ -417,6 +449,13 @@ def main(argv):
                 fid = attribute(status, detail, recipe)
                 print("site oracle:", status, detail)
                 if fid == "violation" or (fid is not None and not note_known(fid, "")):
+                    print("VIOLATION property=C12 replay=%s" % args.replay)
+                    return 1
+            elif r[1] not in PYTEAL_ERRORS:
+                ah, sh = G.oracle_tables(recipe)
+                m = model.ask((S("ccb"), ah, sh, (S("comps"),) + tuple(G.wire_comp(c) for c in recipe)))
+                if m and m[0] == S("ok"):
+                    print("crash instead of output; the model gives:", m[1:][:20])
                     print("VIOLATION property=C12 replay=%s" % args.replay)
                     return 1
             print("not reproduced")
@@ -540,8 +579,11 @@ def main(argv):
     ck.coverage["constructor_spellings_agreeing_with_assembler"] = ctor_ok
 
     # ---------------- B. createConstantBlocks vs model: unit-test shapes, exhaustive small, random ----------------
+    for rec in G.collision_lists(rng):
+        check_recipe(rec, "collision")
+
     alphabet = [G.op("int", 1), G.op("int", 1000), G.op("int", "pay"), G.op("byte", '"a"'), G.op("byte", "0x61"),
-                G.op("byte", "base64(Yg==)"), G.op("pop"), G.op("int", "TMPL_I")]
+                G.op("byte", "base64(Yg==)"), G.op("pop"), G.op("int", "TMPL_I"), G.op("method", '"a"')]
     import itertools
     maxlen = 5 if thorough else 4
     n_exh = 0
@@ -597,7 +639,8 @@ def main(argv):
             n_prog += 1
             if a[0] != "ok" or b[0] != "ok":
                 if a[0] != b[0] or a[1] not in PYTEAL_ERRORS:
-                    prog_fail.append({"kind": "program-compile", "version": version, "without": repr(a)[:300], "with": repr(b)[:300]})
+                    prog_fail.append({"kind": "program-compile", "version": version, "without": repr(a)[:300], "with": repr(b)[:300],
+                                      "plain": a[1] if a[0] == "ok" else None})
                 continue
             text_a, text_b = a[1], b[1]
             # correspondence: the option is exactly createConstantBlocks applied to the components of the plain compilation
@@ -682,7 +725,7 @@ def main(argv):
     # ---------------- failing-input search when the tie or a proof broke ----------------
     broke = bool(text_mismatch or ext_mismatch or not ck.proof_ok)
     searched = 0
-    if broke and not sem_fail and not prog_fail and not agree_fail:
+    if broke and not sem_fail and not prog_fail and not agree_fail and not crash_fail:
         # start from the disagreeing recipes (already checked above), then widen: oracle only, no model
         seeds = [m["recipe"] for m in text_mismatch if m.get("recipe")]
         budget = 6000 if thorough else 2500
@@ -742,7 +785,30 @@ def main(argv):
     for f in agree_fail[:5]:
         ck.violation("constants.py reads the literal %r as %s but the TEAL assembler reads %s: assembleConstants=True changes the value"
                      % (f["spelling"], f["pyteal"], f["assembler"]), f)
-    real_failure = bool(sem_fail or prog_fail or agree_fail)
+    crash_reported = set()
+    for f in crash_fail[:40]:
+        if len(crash_reported) >= 3:
+            break
+        exc_class = f["exception"][0]
+
+        def crashes(rec, exc_class=exc_class):
+            r = call_real(real_ccb, rec)
+            if r[0] != "exc" or r[1] != exc_class:
+                return False
+            ah, sh = G.oracle_tables(rec)
+            m = model.ask((S("ccb"), ah, sh, (S("comps"),) + tuple(G.wire_comp(c) for c in rec)))
+            return bool(m) and m[0] == S("ok")
+        small = shrink(f["recipe"], crashes) if crashes(f["recipe"]) else f["recipe"]
+        if repr(small) in crash_reported:
+            continue
+        crash_reported.add(repr(small))
+        f = dict(f)
+        f["recipe"] = small
+        f["exception"] = list(call_real(real_ccb, small)[1:])
+        ck.violation("createConstantBlocks crashes with %s (not a PyTeal error) on components %s, where the pseudo-op program is fine and the model "
+                     "produces the block form: assembleConstants=True turns a compilable program into a crash"
+                     % (f["exception"][0], [" ".join(map(str, c[1:])) for c in small][:14]), f)
+    real_failure = bool(sem_fail or prog_fail or agree_fail or crash_fail)
     if (text_mismatch or ext_mismatch) and not real_failure:
         first = (text_mismatch + ext_mismatch)[0]
         ck.violation("correspondence broken: constants.py no longer matches Comp/Constants.v on %d cases (theorem C12_constants_sites_preserved no longer transfers); "
@@ -751,13 +817,13 @@ def main(argv):
     if not ck.proof_ok and not real_failure:
         ck.violation("proof obligation broken: Props/C12.v or its Proofs/ files no longer check",
                      {"kind": "proof", "broken": "C12 theorems", "forbidden_scan": ck.coverage.get("forbidden_scan"), "log": ck.proof_log[-1500:]}, no_failing_input=True)
-    ck.coverage["disagreements_checked"] = len(text_mismatch) + len(ext_mismatch) + len(sem_fail) + len(prog_fail) + len(agree_fail)
+    ck.coverage["disagreements_checked"] = len(text_mismatch) + len(ext_mismatch) + len(sem_fail) + len(prog_fail) + len(agree_fail) + len(crash_fail)
     model.close()
     avm.close()
     return ck.finish(
         level="proof",
         rule="extract*Value: fixed tables of well-formed and malformed spellings, every single-byte string and escape-relevant triples through the Bytes constructor, "
-             "random byte strings in every Bytes form, mutated spellings; createConstantBlocks: every list over an 8-op alphabet up to length %d, "
+             "random byte strings in every Bytes form, mutated spellings; createConstantBlocks: every list over a 9-op alphabet up to length %d, "
              "frequency-tie / top-four / 128-threshold mixes, seeded random lists (length 0..60, pools of 1..8 ints and byte values in random spellings, enums, templates, "
              "addresses, method selectors, labels and other ops interleaved, a malformed stream), 5..300(+) distinct repeated constants; whole programs built through "
              "the public constructors at versions 3..10, compiled with and without the option; a case is distinct by its full component list / program text; "
